@@ -515,3 +515,32 @@ func Verif_C04_Sampler() {
 	vr.Assert(oExists && len(s.store[1]) == 1, "C04.sampler.other_database_untouched")
 	vr.Reach("end")
 }
+
+// verifSetValuesBatch: the keyspace write primitive with several entries in one call (what MSET,
+// LMOVE and plugin commands hand to SetValues): a key that did not exist gets no deadline,
+// whatever else is in the batch and in whatever order the batch is written; an existing key keeps
+// its own deadline.
+func verifSetValuesBatch(tag string) {
+	vr.MapOrderND(true)
+	s := verifServer()
+	t0 := time.UnixMilli(1_700_000_000_000)
+	s.clock = verifClock{now: &t0}
+	a, b, c := vr.Tok("a"), vr.Tok("b"), vr.Tok("c")
+	vr.Assume(a != b && a != c && b != c)
+	ms := vr.Int64("deadline_ms")
+	vr.Assume(ms > 1_700_000_000_000 && ms < 4_000_000_000_000)
+	verifPreset(s, 0, a, "old")
+	verifPresetExpiry(s, 0, a, time.UnixMilli(ms))
+	if vr.Choose("c_exists", 2) == 1 {
+		verifPreset(s, 0, c, "plain")
+	}
+	err := s.setValues(verifCtx(0), map[string]interface{}{a: "new-a", b: "new-b", c: "new-c"})
+	vr.Assert(err == nil, tag+".setvalues_batch.succeeds")
+	vr.Assert(s.store[0][b].Value == "new-b" && s.store[0][b].ExpireAt.IsZero(), tag+".setvalues_batch.new_key_has_no_deadline")
+	vr.Assert(s.store[0][c].Value == "new-c" && s.store[0][c].ExpireAt.IsZero(), tag+".setvalues_batch.other_key_has_no_deadline")
+	vr.Assert(s.store[0][a].Value == "new-a" && s.store[0][a].ExpireAt.UnixMilli() == ms, tag+".setvalues_batch.existing_key_keeps_its_own_deadline")
+	vr.Reach("end")
+}
+
+func Verif_C04_SetValuesBatch() { verifSetValuesBatch("C04") }
+func Verif_C01_SetValuesBatch() { verifSetValuesBatch("C01") }
